@@ -1,4 +1,5 @@
 """C17 - seeded generation is reproducible."""
+import math
 import json
 import os
 import random as _random
@@ -93,6 +94,10 @@ class Recorder(tape.Tape):
 
     def uniform(self, a, b):
         f = self.real_uniform(a, b)
+        if f != f or f in (math.inf, -math.inf):
+            # random.uniform overflowed (infinite or > 1.8e308-wide span): outside the range
+            # contract the tape model assumes (PyRandom.v; C01's F23) - not replayable
+            self.outside_contract = True
         self.used.append(tape.float_bits(f))
         return f
 
@@ -130,6 +135,20 @@ def run(ctx):
             sources.append(src)
             schemas.append(gen.build(src))
             dist["relaxed_dicts"] += 1
+        if q % 5 == 2:
+            # schemas built by make_required / + from dicts with several drawing members: the ORDER of
+            # the result's keys decides the order of the draws (keys given as a set, or not at all)
+            ks = r.sample(["a", "bb", "ccc", "id", "zz", "é", "k1", "k2", "name"], r.randint(3, 6))
+            d = "schema.dict({" + ", ".join(f"optional({k!r}): {r.choice(['schema.int', 'schema.str.len(3)', 'schema.bool', 'schema.float'])}"
+                                            for k in ks) + "})"
+            sub = r.sample(ks, r.randint(2, len(ks)))
+            src = r.choice([f"make_required({d})", "make_required(%s, {%s})" % (d, ", ".join(repr(k) for k in sub)),
+                            "make_required(%s, [%s])" % (d, ", ".join(repr(k) for k in sub)),
+                            f"({d} + schema.dict({{'extra': schema.int, {sub[0]!r}: schema.str.len(2)}}))",
+                            "make_required(%s + schema.dict({'extra': schema.int}), {%s})" % (d, ", ".join(repr(k) for k in sub))])
+            sources.append(src)
+            schemas.append(gen.build(src))
+            dist["built_by_combinators"] = dist.get("built_by_combinators", 0) + 1
         seed = fixed_seeds[q] if q < len(fixed_seeds) else r.choice([0, 1, 42, r.randrange(1 << 32), "seed", 3.5])
         jobs.append({"seed": repr(seed), "schemas": sources, "repeat": 2, "thread": q % 3 == 0})
         meta.append((seed, sources, schemas, any(has_negated_class(s) for s in schemas)))
@@ -175,6 +194,9 @@ def run(ctx):
         for src, s in zip(sources, schemas):
             rec = Recorder(saved)
             outcome, res = gsuite.run(s, rec, generator)
+            if getattr(rec, "outside_contract", False):
+                dist["uniform_outside_contract"] = dist.get("uniform_outside_contract", 0) + 1
+                continue
             try:
                 terms.append(gsuite.case_term(s, rec.used, outcome, res))
                 infos.append((src, repr(seed)))
